@@ -110,6 +110,24 @@ class Hist:
             self.close(self.any_live())
 
 
+def subtick(rng):
+    """limits that are not whole kernel ticks (below a millisecond included), set through the hook and looked
+    up from the cache only (the kernel rounds what it stores to its tick, so no raw read-back here): the
+    cached limit is exactly what the caller set, and a non-zero value is never "no limit" """
+    h = Hist(rng)
+    for _ in range(rng.randint(1, 2)):
+        fd = h.socket()
+        w = rng.choice(WHICH)
+        if rng.random() < 0.3:
+            h.limit(fd, w)
+        h.setopt(fd, w, (rng.choice([0, 0, 0, 1, 7]), rng.choice([1, 500, 999, 1000, 1001, 1999, 19999, 999999])))
+        h.limit(fd, w)
+        h.limit(fd, "snd" if w == "rcv" else "rcv")
+        if rng.random() < 0.5:
+            h.limit(fd, w)
+    return h
+
+
 def pattern(rng):
     h = Hist(rng)
     k = rng.randrange(7)
@@ -213,7 +231,7 @@ def gen(rng, tier):
     n = {"quick": 300, "thorough": 4000, "search": 800}[tier]
     cases = []
     for i in range(n):
-        h = malformed(rng) if i % 8 == 7 else pattern(rng)
+        h = malformed(rng) if i % 8 == 7 else subtick(rng) if i % 8 == 3 else pattern(rng)
         if len(h.ops) > 14 and tier != "thorough":
             h.ops = h.ops[:14]
         cases.append({"ops": h.ops})
